@@ -240,11 +240,29 @@ func c13RunOnce(ops []WOp, level int, calls []int, probe bool, choices []bool, k
 				applyWop(e, o)
 			}
 		}
-		if len(nw) > 0 {
-			e.AddWriter(nw)
-		}
-		if len(ew) > 0 {
-			e.AddErrorWriter(ew)
+		// the group is what another logger's GetWriterBy hands out (its whole writer list of that class)
+		if len(nw) > 0 || len(ew) > 0 {
+			src := slog.VerifEntryOf(slog.New("c13src"))
+			for i, m := range nw {
+				if i == 0 {
+					src.SetWriter(m)
+				} else {
+					src.AddWriter(m)
+				}
+			}
+			for i, m := range ew {
+				if i == 0 {
+					src.SetErrorWriter(m)
+				} else {
+					src.AddErrorWriter(m)
+				}
+			}
+			if len(nw) > 0 {
+				e.AddWriter(src.GetWriterBy(slog.InfoLevel))
+			}
+			if len(ew) > 0 {
+				e.AddErrorWriter(src.GetWriterBy(slog.ErrorLevel))
+			}
 		}
 	} else {
 		for _, o := range ops {
@@ -514,6 +532,9 @@ func c13ChildMain(args []string) {
 	var job c13Job
 	must(json.NewDecoder(os.Stdin).Decode(&job))
 	env := c13Setup()
+	// this process reports on stdout: what the package's default logger prints (e.g. the warning of a failed
+	// ParseLevel in the history prelude) must not end up there
+	slog.VerifEntryOf(slog.Default()).SetWriter(io.Discard).SetErrorWriter(io.Discard)
 	c13Nested = job.Nested
 	out := c13Out{Dist: map[string]int{}}
 	rng := &Rng{job.Seed}
